@@ -14,7 +14,7 @@ from pulsarbat.pulsar.phase import Phase, FractionalPhase
 from harness.common import float_lit, zlit, listlit
 
 VFILES = ['Model/Phase2.v', 'Gen/GenPhase.v', 'Proofs/PhaseGen.v', 'Proofs/TwoSumExact.v', 'Proofs/Floor.v', 'Proofs/DayFrac.v', 'Proofs/DayFrac3.v', 'Proofs/PhaseAdd.v',
-          'Proofs/PhaseCmp.v', 'Proofs/PhaseMore.v', 'Proofs/DayFracTail.v', 'Proofs/TwoProduct.v', 'Proofs/PhaseMul.v', 'Proofs/PhaseAbs.v', 'Proofs/DivChain.v', 'Proofs/PhaseDiv.v', 'Model/PhaseDivmod.v', 'Model/PhaseOrd.v', 'Proofs/PhaseArgmin.v', 'Proofs/PhaseSort.v', 'Proofs/PhaseRemainder.v', 'Proofs/PhaseDivmodProofs.v', 'Proofs/PhaseDivmodFloor.v', 'Proofs/FmodSpec.v', 'Proofs/FloorDivSpec.v', 'Proofs/PhaseDivmodFinal.v', 'Gen/GenPhaseOrd.v', 'Proofs/PhaseOrdGen.v', 'Props/C07.v']
+          'Proofs/PhaseCmp.v', 'Proofs/PhaseMore.v', 'Proofs/DayFracTail.v', 'Proofs/FoldHalf.v', 'Proofs/DayFracFold.v', 'Proofs/TwoProduct.v', 'Proofs/PhaseMul.v', 'Proofs/PhaseAbs.v', 'Proofs/DivChain.v', 'Proofs/PhaseDiv.v', 'Model/PhaseDivmod.v', 'Model/PhaseOrd.v', 'Proofs/PhaseArgmin.v', 'Proofs/PhaseSort.v', 'Proofs/PhaseRemainder.v', 'Proofs/PhaseDivmodProofs.v', 'Proofs/PhaseDivmodFloor.v', 'Proofs/FmodSpec.v', 'Proofs/FloorDivSpec.v', 'Proofs/PhaseDivmodFinal.v', 'Gen/GenPhaseOrd.v', 'Proofs/PhaseOrdGen.v', 'Props/C07.v']
 REAL_AX = {'ClassicalDedekindReals.sig_forall_dec', 'ClassicalDedekindReals.sig_not_dec',
            'FunctionalExtensionality.functional_extensionality_dep', 'Classical_Prop.classic', 'float'}
 TOL = Fr(1, 2 ** 52)
@@ -274,6 +274,23 @@ def run(ctx):
             # factor such that the product stays within 2^52
             room = Fr(2 ** 52) / max(abs(ea), Fr(1))
             f = rng.choice([2.0, 3.0, 0.5, -1.0, 1 / 3, 1e-3, 7.25, rng.uniform(-10, 10), rng.uniform(-1e5, 1e5), 10.0, 1e6, 0.1])
+            if not imag and rng.random() < 0.35:
+                # a result within an ulp of a half-integer (where a fraction can be left just outside [-1/2, 1/2]): the operand is a
+                # half-integer times / over the factor, up to two ulps off - half of these around -1/2 itself, one ulp further out
+                # (the family on which the defect D25 showed: Phase(-3.5000000000000004) / 7)
+                f = rng.choice([3.0, 7.0, 11.0, 13.0, 1 / 3, 0.1, 5.0, 9.0])
+                if rng.random() < 0.5:
+                    h, steps, way = -0.5, 1, -math.inf
+                else:
+                    h = rng.choice([1, -1]) * (rng.choice([0, 1, 2, 3, 5, 1000, 2 ** 30 + 1]) + 0.5)
+                    steps, way = rng.choice([0, 1, 1, 2]), rng.choice([math.inf, -math.inf])
+                x = h / f if op == 'mul' else h * f
+                for _ in range(steps):
+                    x = math.nextafter(x, way)
+                a = Phase(x)
+                ea = exact(a)[0]
+                room = Fr(2 ** 52) / max(abs(ea), Fr(1))
+                ctx.count('near_half_integer_result')
             if op == 'mul' and abs(Fr(f)) > room:
                 f = float(room) * rng.uniform(0.1, 0.9)
             if op == 'div':
